@@ -359,6 +359,9 @@ impl PropertySet {
         for (_, value) in self.properties.iter() {
             value.write(writer.by_ref(), self.codepage)?;
         }
+        // Flush explicitly, so that an error is reported rather than being
+        // swallowed when the writer is dropped.
+        writer.flush()?;
         Ok(())
     }
 
